@@ -339,48 +339,70 @@ pub fn judge(sc: &Scenario) -> Judgement {
     }
     // (a) every document the broker computed
     j.comparisons += rec.doc_obs.len() as u64;
-    for (k, (uri, text, feat, step)) in want.writes.iter().enumerate() {
-        match rec.doc_obs.get(k) {
-            None => {
-                j.violate(
-                    ID,
-                    "server-copy",
-                    format!("server-copy missing-update | {feat}"),
-                    format!("write #{k} (script step {step}, {uri}) was never applied by the broker ({} updates observed for {} writes)", rec.doc_obs.len(), want.writes.len()),
-                );
-                return j;
-            }
-            Some(o) => {
-                if &o.uri != uri {
-                    j.notes.push(format!("other-property=C20 update #{k} applied to {} instead of {uri}", o.uri));
-                    return j;
+    // The documents the broker computes, per URI and in order, must be a subsequence of the texts
+    // the client's writes produce that ends with the last one: a broker that applies several
+    // queued changes of a document in one go conforms, one that skips, reorders, repeats or
+    // garbles a change does not.
+    {
+        let mut queue: std::collections::BTreeMap<&str, std::collections::VecDeque<usize>> = Default::default();
+        for (k, w) in want.writes.iter().enumerate() {
+            queue.entry(w.0.as_str()).or_default().push_back(k);
+        }
+        for o in &rec.doc_obs {
+            let q = queue.entry(o.uri.as_str()).or_default();
+            match q.iter().position(|&k| want.writes[k].1 == o.doc.text) {
+                Some(p) => {
+                    q.drain(..=p);
                 }
-                if &o.doc.text != text {
-                    j.violate(
-                        ID,
-                        "server-copy",
-                        format!("server-copy {feat}"),
-                        format!(
-                            "after script step {step} ({}) on {uri} the client holds {} but the server holds {}",
-                            sc.script[*step].op.short(),
-                            quote(text),
-                            quote(&o.doc.text)
-                        ),
-                    );
+                None => {
+                    match q.front() {
+                        Some(&k) => {
+                            let (uri, text, feat, step) = &want.writes[k];
+                            j.violate(
+                                ID,
+                                "server-copy",
+                                format!("server-copy {feat}"),
+                                format!(
+                                    "after script step {step} ({}) on {uri} the client holds {} but the server holds {}",
+                                    sc.script[*step].op.short(),
+                                    quote(text),
+                                    quote(&o.doc.text)
+                                ),
+                            );
+                        }
+                        None => {
+                            if want.writes.iter().any(|w| w.0 == o.uri) {
+                                j.violate(
+                                    ID,
+                                    "server-copy",
+                                    "server-copy extra-update".into(),
+                                    format!("the broker applied an update to {} that the client never made (a change to a closed document must be ignored; no change may be applied twice)", o.uri),
+                                );
+                            } else {
+                                j.notes.push(format!("other-property=C20 an update was applied to {}, a document the client never wrote to", o.uri));
+                            }
+                        }
+                    }
                     return j;
                 }
             }
         }
-    }
-    if rec.doc_obs.len() > want.writes.len() {
-        let o = &rec.doc_obs[want.writes.len()];
-        j.violate(
-            ID,
-            "server-copy",
-            "server-copy extra-update".into(),
-            format!("the broker applied an update to {} that the client never made (a change to a closed document must be ignored)", o.uri),
-        );
-        return j;
+        for (uri, q) in &queue {
+            if let Some(&k) = q.back() {
+                let (_, _, feat, step) = &want.writes[k];
+                j.violate(
+                    ID,
+                    "server-copy",
+                    format!("server-copy missing-update | {feat}"),
+                    format!(
+                        "the write of script step {step} to {uri} was never applied by the broker ({} updates observed for {} writes)",
+                        rec.doc_obs.len(),
+                        want.writes.len()
+                    ),
+                );
+                return j;
+            }
+        }
     }
     // (b) probes
     let got = rec.responses();
